@@ -101,7 +101,8 @@ func CloneTo[T any](maybeSelf MaybeDef[T], dest T) MaybeDef[T] {
 		starY.Set(starX)
 		if IsNil(dest) {
 			// No target to copy into (e.g. Clone()): the fresh copy is the clone
-			return JustGenerics(y.Interface().(T))
+			// (converted back, since x may be of a named pointer type)
+			return JustGenerics(y.Convert(x.Type()).Interface().(T))
 		}
 		reflect.ValueOf(dest).Elem().Set(y.Elem())
 		return JustGenerics(dest)
